@@ -11,6 +11,7 @@ FLAT4 = dict(FLAT, **{"q/d.txt": b"fourth distinct content"})
 NEST = {"p": DIR, "p/s": DIR, "q": DIR, "p/a.txt": b"content of a", "p/s/b.txt": b"content of b (distinct)",
         "q/c.txt": b"content of c, distinct too"}
 KINDS = ("stay", "rename", "move", "move+rename")
+KINDS_CASE = KINDS + ("case",)   # a rename that only changes the letter case of the name (another name on this file system)
 
 
 def target(path, kind, tree, hist_dirs):
@@ -21,6 +22,8 @@ def target(path, kind, tree, hist_dirs):
         return path
     if kind == "rename":
         return d + "/" + nn
+    if kind == "case":
+        return d + "/" + n.upper()
     if kind == "newdir":
         return "fresh dir/" + n
     if kind == "toroot":
@@ -222,7 +225,8 @@ def main(tier, seed):
             continue
         files = sorted(p for p, v in tree.items() if v is not DIR and not p.startswith("cache/"))
         hd = {f: ["p", "q"] for f in files}
-        asg = assignments(tree, hd, files, KINDS + ("newdir", "toroot") if name in ("flat-other-format", "excluded-folder-other-format") else KINDS)
+        asg = assignments(tree, hd, files, KINDS + ("newdir", "toroot") if name in ("flat-other-format", "excluded-folder-other-format")
+                          else (KINDS_CASE if name in ("flat-2formats", "small-files-other-format") else KINDS))
         for mp in asg:
             if name == "excluded-folder-other-format":
                 cases.append({"layout": name, "base": base, "mapping": mp, "fmts": fmts, "dr_i": ["cache"]})
